@@ -16,7 +16,7 @@ def _input_expr(expr):
         if isinstance(expr, np.ndarray):
             pass
         elif expr == [] or expr == ():
-            expr = np.asarray(expr).astype("int32")
+            expr = np.asarray(expr).astype("int64")
         else:
             try:
                 expr = np.asarray(expr)
